@@ -141,6 +141,58 @@ def loc_of(fn, line=None):
     return f"{fn.file}:{line if line else fn.line}"
 
 
+def _discharged_decrement(b, bb, t):
+    """The overflow check of `x - 1` cannot fail where every path to it took the true edge of `x > 0` / `x != 0` / `x >= 1`
+    (or the false edge of `x == 0`) on the same variable x, unassigned in between."""
+    sy = Sym(b.fn)
+    sub = None
+    for st in reversed(b.blocks[bb]["s"]):
+        if st["k"] == "assign" and st["rv"]["k"] in ("bin", "checked_bin") and str(st["rv"].get("op", "")).startswith("Sub"):
+            sub = st
+            break
+    if sub is None:
+        return False
+    rv = sub["rv"]
+    one = rv["b"].get("const") or {}
+    x = rv["a"].get("copy") or rv["a"].get("move") or {}
+    if one.get("int") != 1 or x.get("pr") or x.get("l") is None:
+        return False
+    root = value_def(b, rv["a"])
+    if root[0] != "var":
+        return False
+    X = root[1]
+    for s_ in range(b.n):
+        tt = b.term(s_)
+        if tt["k"] != "switch" or tt.get("dty") != "bool":
+            continue
+        d = strip_sym(sy.operand(tt["discr"]))
+        if not (d[0] == "bin" and d[1] in ("Gt", "Ne", "Ge", "Eq", "Lt")):
+            continue
+        dl = None
+        for ii, kk, st in b.stmts():
+            pass
+        # the compared operand must be the variable itself at the time of the test
+        ds = b.defs().get((tt["discr"].get("copy") or tt["discr"].get("move") or {}).get("l"), [])
+        if len(ds) != 1 or ds[0][0] != "assign" or ds[0][3]["rv"]["k"] != "bin":
+            continue
+        cmp_rv = ds[0][3]["rv"]
+        lhs = value_def(b, cmp_rv["a"])
+        k0 = (cmp_rv["b"].get("const") or {}).get("int")
+        if lhs[0] != "var" or lhs[1] != X or k0 is None:
+            continue
+        vals = [a["v"] for a in tt["arms"]]
+        for lab, tg in b.switch_edges(s_):
+            truth = (not bool(vals[0]) if len(vals) == 1 else None) if lab == "otherwise" else bool(lab)
+            positive = (cmp_rv["op"] == "Gt" and k0 == 0 and truth is True) or (cmp_rv["op"] == "Ne" and k0 == 0 and truth is True) or (cmp_rv["op"] == "Ge" and k0 == 1 and truth is True) or (cmp_rv["op"] == "Eq" and k0 == 0 and truth is False) or (cmp_rv["op"] == "Lt" and k0 == 1 and truth is False)
+            if positive and b.edge_dominates((s_, tg), bb):
+                # no write of X between the test and the decrement
+                between = b.reachable(tg, cut={bb})
+                writes = [i_ for i_, k_, st in b.stmts() if i_ in between and i_ != bb and st["k"] == "assign" and st["p"]["l"] == X and not st["p"].get("pr")]
+                if not writes:
+                    return True
+    return False
+
+
 def has_panic_path(fn, allow=()):
     """Assert terminators or calls into panicking machinery in the region (foreign expansions excluded)."""
     bad = []
@@ -150,7 +202,13 @@ def has_panic_path(fn, allow=()):
             t = blk.get("t") or {}
             if is_foreign_exp(t.get("exp")):
                 continue
+            if "debug_assert" in str(t.get("expc") or "") + str(t.get("exp") or ""):
+                # the failing branch of a debug_assert!: a stated invariant, compiled out of release builds — not a way the
+                # operation itself panics
+                continue
             if t.get("k") == "assert":
+                if "Overflow" in str(t.get("msg")) and _discharged_decrement(b, i, t):
+                    continue
                 bad.append((f, i, "assert:" + str(t.get("msg"))))
             elif t.get("k") == "call":
                 r = strip_generics(t.get("resolved") or t.get("callee") or "")
